@@ -145,7 +145,7 @@ pub fn search_c05(rng: &mut Rng, thorough: bool) -> SearchResult {
     let mut r = SearchResult::default();
     let maxres = if thorough { 9 } else { 7 };
     r.rule = format!(
-        "every cell description of resolution -1..{} (all faces, quintants, positions) plus structured/random positions up to resolution 29: serialize == documented layout, deserialize inverts, get_resolution agrees, IDs pairwise distinct and canonical; hex: round trip, shape, rejection of empty/non-hex/too-wide strings. non-trivial = distinct cell descriptions / distinct hex inputs",
+        "every cell description of resolution -1..{} (all faces, quintants, positions) plus structured/random positions up to resolution 29: serialize == documented layout, deserialize inverts, get_resolution agrees, IDs pairwise distinct and canonical; IDs sharing a bit field (same 6-bit prefix at resolution 0 and above, same position bits elsewhere) decoded back to back in both orders; hex: round trip, shape, rejection of empty/non-hex/too-wide strings. non-trivial = distinct cell descriptions / distinct hex inputs",
         maxres
     );
     let mut ids: Vec<u64> = Vec::new();
@@ -212,6 +212,43 @@ pub fn search_c05(rng: &mut Rng, thorough: bool) -> SearchResult {
     r.dist.insert("cells_random_deep".into(), (before - n_exh) as u64);
     r.sample(format!("serialize(origin 7, segment 3, s 1234, res 9) = {:x}", serialize(&A5Cell { origin_id: 7, segment: 3, s: 1234, resolution: 9 }).unwrap()));
 
+    // decoding is a function of the 64 bits alone, whatever was decoded before: IDs that share a bit field with a different
+    // meaning (the 6-bit prefix is a face at resolution 0 and 5*face+quintant above; the same position bits on another
+    // face, quintant or resolution) are decoded back to back, in both orders
+    {
+        let mut related: Vec<Vec<A5Cell>> = Vec::new();
+        for t in 0..60usize {
+            let mut g = Vec::new();
+            if t < 12 {
+                g.push(A5Cell { origin_id: t as u8, segment: 0, s: 0, resolution: 0 });
+            }
+            let o = t / 5;
+            for res in [1, 2, 3, 9, 29] {
+                let s = if res < 2 { 0 } else { idcorr::gen_s(res, rng) };
+                g.push(A5Cell { origin_id: o as u8, segment: (t % 5 + first_quintant(o)) % 5, s, resolution: res });
+                // the same position bits elsewhere
+                g.push(A5Cell { origin_id: rng.below(12) as u8, segment: rng.below(5) as usize, s, resolution: res });
+            }
+            related.push(g);
+        }
+        for g in &related {
+            for a in g {
+                for b in g {
+                    let (ia, ib) = match (serialize(a), serialize(b)) {
+                        (Ok(x), Ok(y)) => (x, y),
+                        _ => continue,
+                    };
+                    r.evaluations += 1;
+                    r.count("decoded_after_a_related_id");
+                    let _ = catch_unwind(|| deserialize(ia));
+                    match catch_unwind(|| deserialize(ib)) {
+                        Ok(Ok(c)) if c == *b => {}
+                        other => r.viol("codec", format!("deserialize({:x}) directly after deserialize({:x}) = {:?}, expected {:?}", ib, ia, other.map_err(|_| "panic"), b)),
+                    }
+                }
+            }
+        }
+    }
     // descriptions that are not cells must be rejected, never encoded as the ID of another cell: positions past the end
     // of the curve (just past, far past, and with only bits that a shift into place would drop), resolutions out of range
     for _ in 0..(if thorough { 40_000 } else { 6_000 }) {
